@@ -3,7 +3,10 @@ C13, layer S: what "a value lies in the interval" and "sorted by the field" mean
 content: a strict order `lt` on the value type, the four inclusivity combinations, open ends.
 For integers, Decimals (as their scaled integers) and datetimes (as microsecond counts) the order is
 `<` on `Int`; for floats it is the IEEE-754 *totalOrder* on 64-bit patterns, which on non-NaN values
-is the numeric order refined by `-0.0 < +0.0`.
+is the numeric order refined by `-0.0 < +0.0` — this is what the sortable encoding implements.
+The *numeric* reading (`inIntervalNum`: Python's `<`/`<=`, `-0.0 == 0.0`, NaN never inside a bounded
+side) is given as well; the two agree except for a zero value facing a zero bound of the other sign
+and for NaNs (`WM.C13.range_query_float_numeric_partial` / `_full_false`).
 -/
 namespace WM.NumericSpec
 
@@ -28,6 +31,41 @@ def totalLt (a b : Nat) : Bool :=
   let mb := b % 2 ^ 63
   if sa = 1 then (if sb = 1 then mb < ma else true)
   else (if sb = 1 then false else ma < mb)
+
+/-! Numeric (Python / IEEE-754 comparison) membership of a double, for comparison with the total
+    order: `-0.0 == 0.0`, and a NaN is neither below nor above anything. -/
+
+def isNaN (b : Nat) : Bool := b % 2 ^ 63 > 0x7ff0000000000000
+def isZero (b : Nat) : Bool := b % 2 ^ 63 == 0
+
+/-- Python's `a < b` on doubles. -/
+def ieeeLt (a b : Nat) : Bool :=
+  !isNaN a && !isNaN b && !(isZero a && isZero b) && totalLt a b
+
+/-- Python's `a <= b` on doubles. -/
+def ieeeLe (a b : Nat) : Bool :=
+  !isNaN a && !isNaN b && ((isZero a && isZero b) || !totalLt b a)
+
+/-- `start <(=) v <(=) end` with Python's comparisons: what "the value lies in the interval" means
+    numerically.  A bounded side is never satisfied by a NaN. -/
+def inIntervalNum (start end_ : Option Nat) (startexcl endexcl : Bool) (v : Nat) : Bool :=
+  (match start with
+    | none => true
+    | some s => if startexcl then ieeeLt s v else ieeeLe s v) &&
+  (match end_ with
+    | none => true
+    | some e => if endexcl then ieeeLt v e else ieeeLe v e)
+
+/-- Lexicographic order of `(days, seconds, microseconds)` triples: the order of datetimes. -/
+def tripleLt (a b : Int × Int × Int) : Bool :=
+  decide (a.1 < b.1 ∨ (a.1 = b.1 ∧ (a.2.1 < b.2.1 ∨ (a.2.1 = b.2.1 ∧ a.2.2 < b.2.2))))
+
+def ratLt (a b : Rat) : Bool := a < b
+
+/-- The documents (by position) having at least one value numerically in the interval (floats). -/
+def filterIdxNum (docs : List (List Nat)) (start end_ : Option Nat) (startexcl endexcl : Bool) :
+    List Nat :=
+  (docs.zipIdx.filter fun (vs, _) => vs.any (inIntervalNum start end_ startexcl endexcl)).map (·.2)
 
 /-- The documents (by position) having at least one value in the interval. -/
 def filterIdx {α} (lt : α → α → Bool) (docs : List (List α)) (start end_ : Option α)
